@@ -324,6 +324,8 @@ def impl(line: str) -> str:  # noqa: PLR0911, PLR0912
             except Unsupported:
                 return "unsupported"
             return f"ok {T(str(D.at_index(d, int(t[3]))))} {1 if d.is_ranged else 0}"
+        if op == "multipath":
+            return "ok " + ";".join(T(x) for x in D.multipath_descriptors(unT(t[1])))
         if op.startswith("scan."):
             return _SCAN_CTX[line]
     except Exception as e:  # noqa: BLE001
@@ -1172,7 +1174,7 @@ def run(ctx):  # noqa: PLR0912, PLR0915
     specs = []
     for net in NETS:
         g = Gen(rng, net)
-        for _ in range(ctx.n(14, 120)):
+        for _ in range(ctx.n(24, 160)):
             canonical = rng.random() < 0.5
             spec = g.script_expr("top", canonical)
             specs.append((net, spec, canonical))
@@ -1285,6 +1287,19 @@ def run(ctx):  # noqa: PLR0912, PLR0915
         for _ in range(ctx.n(6, 60)):
             _multipath_case(ctx, g, net)
 
+    lines = []
+    for text in _MP_TEXTS + texts[:10]:
+        lines.append("multipath " + T(text))
+        for _ in range(ctx.n(3, 10)):
+            body = text.partition("#")[0]
+            p_ = rng.randrange(len(body))
+            m = body[:p_] + rng.choice("<>;;<>0/") + body[p_ + rng.choice([0, 1]):]
+            lines.append("multipath " + T(m))
+    lines += ["multipath " + T(x) for x in ["", "<>", "<;>", "a<b<c;d>e", "a<b>c", "<0;1><2;3>", "x<0;1>y<2>", "x<0;1>>y",
+                                             "x<<0;1>y", "x<0;1", "x0;1>", "pk(<;>)", "a<0;1>b<2;3>c<4;5>d", "<0;1;2>#", "é<0;1>"]]
+    _MP_TEXTS.clear()
+    stream(ctx, "multipath", lines)
+
     # ---- index_of and the scans
     scan_lines = []
     for net, spec, _ in rng.sample(specs, min(len(specs), ctx.n(25, 200))):
@@ -1317,6 +1332,9 @@ def run(ctx):  # noqa: PLR0912, PLR0915
 
     wallet_batch(ctx)
     opaque_batch(ctx)
+
+
+_MP_TEXTS: list = []
 
 
 def _multipath_case(ctx, g, net):
@@ -1366,6 +1384,7 @@ def _multipath_case(ctx, g, net):
             text = text.replace(";".join(str(a) for a in keys[0][2]), str(keys[0][2][0]), 1)
         else:
             bad = False
+    _MP_TEXTS.append(text)
     if bad and "<" in text:
         ctx.check("multipath", {"text": text, "network": net, "expect": None})
         return
